@@ -366,7 +366,7 @@ def i_taddcc(ins, fmap):
     _r, carry, overflow = AddWithCarry(_s1, _s2)
     fmap[nf] = _r[31:32]
     fmap[zf] = _r == 0
-    fmap[vf] = overflow | (_s1[0:2] != 0 | _s2[0:2] != 0)
+    fmap[vf] = overflow | (_s1[0:2] != 0) | (_s2[0:2] != 0)
     fmap[cf] = carry
     if dst is not g0:
         fmap[dst] = _r
@@ -415,7 +415,7 @@ def i_tsubcc(ins, fmap):
     if ins.misc["icc"]:
         fmap[nf] = _r[31:32]
         fmap[zf] = _r == 0
-        fmap[vf] = overflow | (_s1[0:2] != 0 | _s2[0:2] != 0)
+        fmap[vf] = overflow | (_s1[0:2] != 0) | (_s2[0:2] != 0)
         fmap[cf] = carry
     if dst is not g0:
         fmap[dst] = _r
